@@ -324,7 +324,7 @@ func (X *Exec) execIndexAddr(fr *Frame, i *ssa.IndexAddr, st *State) {
 	case *types.Slice:
 		ln := ts.Sel(x.T, 2)
 		X.oblige(st, "bounds", "", fmt.Sprintf("index in range: %s[%s]", srcName(i.X), srcName(i.Index)), i.Pos(), ts.And(ts.Le(ts.IntLit(0), idx), ts.Lt(idx, ln)))
-		fr.Regs[i] = &Val{A: &Addr{Kind: AddrElem, Arr: ts.Sel(x.T, 0), Idx: ts.Add(ts.Sel(x.T, 1), idx), ObjT: u.Elem(), T: u.Elem()}, GT: i.Type()}
+		fr.Regs[i] = &Val{A: &Addr{Kind: AddrElem, Arr: ts.Sel(x.T, 0), Idx: X.E.ElemIdx(ts.Sel(x.T, 1), idx), ObjT: u.Elem(), T: u.Elem()}, GT: i.Type()}
 	case *types.Pointer:
 		at := u.Elem().Underlying().(*types.Array)
 		X.oblige(st, "bounds", "", fmt.Sprintf("index in range of [%d]: %s[%s]", at.Len(), srcName(i.X), srcName(i.Index)), i.Pos(), ts.And(ts.Le(ts.IntLit(0), idx), ts.Lt(idx, ts.IntLit(at.Len()))))
@@ -948,7 +948,7 @@ func (X *Exec) strOfBytes(st *State, b *Term, elem types.Type) *Term {
 	str := ts.Fresh("strof", SStr)
 	k := ts.BoundVar("k", SInt)
 	st.assume(ts, ts.And(ts.Eq(X.E.StrLen(str), ln),
-		ts.Forall([]*Term{k}, ts.Implies(ts.And(ts.Le(ts.IntLit(0), k), ts.Lt(k, ln)), ts.Eq(X.E.StrAt(str, k), ts.Select(arr, ts.Add(off, k)))), []*Term{X.E.StrAt(str, k)})))
+		ts.Forall([]*Term{k}, ts.Implies(ts.And(ts.Le(ts.IntLit(0), k), ts.Lt(k, ln)), ts.Eq(X.E.StrAt(str, k), ts.Select(arr, X.E.ElemIdx(off, k)))), []*Term{X.E.StrAt(str, k)})))
 	return str
 }
 
